@@ -223,7 +223,7 @@ theorem connectBestChain_reject_download (s' : State) (t tip : Blk) (rest : List
   simp only [hpar, if_true, hc]
 
 theorem download_reject_fresh (s : State) (t : Blk)
-    (hinv : ∀ s1, P.exec s1 t ≠ none)
+    (hinv : ∀ s1, storeBlock s t = some s1 → P.exec (addIndex s1 t .download) t ≠ none)
     (tip : Blk) (rest : List Blk) (hbest : s.best = tip :: rest) (hpar : t.parent = tip.id)
     (hpk : blockExists s t.parent = true) (hf : Fresh t.id s) :
     Fresh t.id (processBlock P s t .download).1 := by
@@ -266,7 +266,7 @@ theorem download_reject_fresh (s : State) (t : Blk)
             rw [h1.1, hbest]
           have hsrc : (addIndex s1 t .download).srcOf t.id = some .download := by simp [addIndex, upd]
           cases he : P.exec (addIndex s1 t .download) t with
-          | none => exact absurd he (hinv _)
+          | none => exact absurd he (hinv s1 hs1)
           | some e =>
             rw [connectBestChain_reject_download _ t tip rest hb' hpar hsrc e he]
             refine ⟨⟨?_, ?_, ?_⟩, e, rfl⟩
